@@ -73,7 +73,9 @@ package resolver
 //@   assert at return end ncalls("Decrement") == 1
 
 // stop: the selector gives back its own reference on each of its clusters and
-// plugins; a cluster is unsubscribed (a plugin update is requested) only when
+// plugins -- no clusterInfo reference is given back while a route's route clusters are
+// released (the references are per distinct cluster name, given back in the
+// loops over cs.clusters / cs.plugins, not per route cluster); a cluster is unsubscribed (a plugin update is requested) only when
 // the count this very decrement produced is zero.
 //@ func (*configSelector).stop
 //@   prop C51
@@ -82,6 +84,7 @@ package resolver
 //@   loop 2 invariant true
 //@   loop 3 invariant true
 //@   loop 4 invariant true
+//@   loop 2 step nchanges("clusterInfo.refCount") == athead(nchanges("clusterInfo.refCount"))
 //@   assert at call unsubscribe#1 lastnew("clusterInfo.refCount") == 0 && implies(lastold("clusterInfo.refCount") > -2147483648, lastold("clusterInfo.refCount") == 1)
 //@   assert at call sendNewServiceConfig#1 lastnew("clusterInfo.refCount") == 0 && implies(lastold("clusterInfo.refCount") > -2147483648, lastold("clusterInfo.refCount") == 1)
 
